@@ -93,6 +93,7 @@ def run_change_detection(ctx):
         return
     bb, t = pushes[0]
     ops_guards = []
+    wide_calls = set()
     for g in b.guards_of(bb):
         discr = b.term(g["sw"])["discr"]
         wide = Slicer(b).origins([discr], through_calls="all")
@@ -100,12 +101,13 @@ def run_change_detection(ctx):
             continue
         narrow = Slicer(b).origins([discr], through_calls="none")
         ops_guards.append((g, {c for c in narrow.call_names()}))
+        wide_calls |= set(wide.call_names())
     if not ops_guards:
         ctx.violation("change-detection", "ops_changed", "reload preserves a stream's state without looking at its operations at all", site=t["sp"])
         return
     calls = set().union(*[c for _, c in ops_guards])
-    if any(c.endswith("::zip") for c in calls) and not any(c.endswith("::len") or c.endswith("::eq") or c.endswith("::ne") for c in calls):
-        ctx.violation("change-detection", "ops_changed:zip-without-length", "reload compares the old and the new operations pairwise with zip() and never compares their lengths: zip stops at the shorter list, so a stream that gained or lost trailing steps is reported as state_preserved and keeps running the old pipeline", site=b.term(ops_guards[0][0]["sw"]).get("sp") or b.js["span"])
+    if not any(c.endswith(("::len", "::eq", "::ne")) for c in wide_calls | calls):
+        ctx.violation("change-detection", "ops_changed:no-length-comparison", "reload's test of the old against the new operations (%s) contains neither a length comparison nor a whole-collection equality: a pairwise walk stops at the shorter list, so a stream that gained or lost trailing steps is reported as state_preserved and keeps running the old pipeline" % sorted(x.rsplit("::", 1)[-1] for x in (wide_calls | calls))[:6], site=b.term(ops_guards[0][0]["sw"]).get("sp") or b.js["span"])
     else:
         ctx.ok("change-detection", "ops_changed:length-compared")
     only_len = calls and all(c.endswith("::len") for c in calls)
